@@ -2,6 +2,7 @@ import Ufo2ftModel.Spec.C09Hyp
 import Ufo2ftModel.Props.C09Names
 import Ufo2ftModel.Props.C09Reach
 import Ufo2ftModel.Props.C09Sign
+import Ufo2ftModel.Props.C09Two
 set_option linter.unusedSectionVars false
 /-!
 C09, pipeline level: the main theorems.
@@ -471,5 +472,258 @@ theorem C09_sparse (cfg : Cfg) (src : Masters) (o : PreOut)
       · rw [hn]; simp [hnskip']
       · have hsent : isSentinel e.2 = true := by rw [hempty]; exact isSentinel_emptyGlyph _
         simp [hsent]
+
+/-! ### C09_twoByTwo -/
+
+theorem uniformCustom_prop (cfg : Cfg) (h : uniformCustom cfg = true) : UniformCustom cfg := by
+  intro pre
+  simp only [uniformCustom, List.all_cons, List.all_nil, Bool.and_true, Bool.and_eq_true, Bool.or_eq_true] at h
+  cases pre
+  · exact h.2
+  · exact h.1
+
+theorem allEq_mem {α} [BEq α] [LawfulBEq α] (l : List α) (h : allEq l = true) : ∀ x ∈ l, ∀ y ∈ l, x = y := by
+  cases l with
+  | nil => intro x hx; cases hx
+  | cons a l =>
+    simp only [allEq, List.all_eq_true] at h
+    have ha : ∀ x ∈ a :: l, x = a := by
+      intro x hx
+      rcases List.mem_cons.mp hx with rfl | hx
+      · rfl
+      · exact eq_of_beq (h x hx)
+    intro x hx y hy
+    rw [ha x hx, ha y hy]
+
+theorem allEq_of_pairwise {α} [BEq α] [LawfulBEq α] (l : List α) (h : ∀ x ∈ l, ∀ y ∈ l, x = y) : allEq l = true := by
+  cases l with
+  | nil => rfl
+  | cons a l => exact allEq_of_const (a :: l) a (fun x hx => h x hx a List.mem_cons_self)
+
+/-- sources that agree on component lists (and contain no look-alike of ufo2ft's stand-ins) agree on component names -/
+theorem src_alikeN (src : Masters) (hc : compCompatible src = true) (hns : noSentinels src = true) :
+    AlikeB (abG absN) src := by
+  intro m1 hm1 m2 hm2 n g1 g2 h1 h2
+  simp only [compCompatible, List.all_eq_true] at hc
+  simp only [noSentinels, List.all_eq_true, Bool.not_eq_true'] at hns
+  have hn : n ∈ allNames src := (mem_allNames src n).mpr ⟨m1, hm1, (get?_isSome_iff_names m1 n).mp (by rw [h1]; rfl)⟩
+  have hin : ∀ (m : GlyphSet) (g : Glyph), m ∈ src → m.get? n = some g → g.comps.map (fun k => k.base) ∈ compSeqsOf src n := by
+    intro m g hm hg
+    simp only [compSeqsOf, List.mem_map, List.mem_filter, glyphsNamed, List.mem_filterMap]
+    exact ⟨g, ⟨⟨m, hm, hg⟩, by simp [hns m hm _ (get?_mem m n g hg)]⟩, rfl⟩
+  have := allEq_mem _ (hc n hn) _ (hin m1 g1 hm1 h1) _ (hin m2 g2 hm2 h2)
+  simp only [abG, absN, Prod.mk.injEq, true_and]
+  have e : ∀ g : Glyph, g.comps.map (abK absN) = (g.comps.map (fun k => k.base)).map (fun b => (b, ())) := by
+    intro g; simp [abK, absN, List.map_map, Function.comp_def]
+  show g1.comps.map (abK absN) = g2.comps.map (abK absN)
+  rw [e, e, this]
+
+theorem src_kOk (src : Masters) (hwf : wfSrc src = true) : MastersQ KOk src := by
+  intro m hm e he
+  simp only [wfSrc, List.all_eq_true, Bool.and_eq_true, decide_eq_true_eq] at hwf
+  show e.2.name = e.1
+  simpa using (hwf m hm).2 e he
+
+/-- state predicates of the two halves of the TrueType pre-processor -/
+def PA (src : Masters) (L : List (List String)) (s : St) : Prop :=
+  StQ KOk s ∧ AlikeB (abG absN) s.ms ∧ Meta (allNames src) L s
+
+def PC (L : List (List String)) (s : St) : Prop := AlikeB (abF absL) s.ms ∧ namesOf s.ms = L
+
+theorem curvesStep_PC (cfg : Cfg) (L : List (List String)) (s s' : St) (b : Option Masters) (hs : PC L s)
+    (hcu : cu2quOk cfg b = true) (h : curvesStep cfg s = .ok (b, s')) : PC L s' := by
+  have hbefore := curvesStep_before cfg s s' b h
+  unfold curvesStep at h
+  split at h
+  · rename_i hcc
+    cases hq : cfg.cu2qu with
+    | none => rw [hq] at h; cases h
+    | some q =>
+      rw [hq] at h
+      simp only [Except.ok.injEq, Prod.mk.injEq] at h
+      rw [← h.2]
+      have hsk : q.map skel = s.ms.map skel := by
+        rw [hbefore hcc] at hcu
+        simp only [cu2quOk, hq] at hcu
+        exact cu2quKeeps_eq _ _ hcu
+      exact ⟨by rw [updated_ms]; exact skel_alikeF absL q s.ms hsk hs.1,
+        by rw [updated_ms]; dsimp only; rw [skel_namesOf q s.ms hsk]; exact hs.2⟩
+  · split at h
+    · simp only [Except.ok.injEq, Prod.mk.injEq] at h
+      rw [← h.2]
+      exact ⟨by rw [updated_ms]; exact reverseAll_alike (abF absL) (abF_rev absL) s.ms hs.1,
+        by rw [updated_ms]; dsimp only; rw [namesOf_reverseAll]; exact hs.2⟩
+    · simp only [Except.ok.injEq, Prod.mk.injEq] at h
+      rw [← h.2]; exact hs
+
+theorem alookup_append {ν} (n : String) (a b : List (String × ν)) :
+    alookup n (a ++ b) = match alookup n a with | some v => some v | none => alookup n b := by
+  induction a with
+  | nil => rfl
+  | cons e a ih =>
+    obtain ⟨k, v⟩ := e
+    simp only [List.cons_append, alookup]
+    by_cases hk : (k == n) = true
+    · simp [hk]
+    · simp only [hk]; exact ih
+
+/-- `makeMissingRequiredGlyphs` without designspace: at most a `.notdef` is appended -/
+theorem addRequired_none_get? (cfg : Cfg) (hi : cfg.inst = none) (i : Nat) (m : GlyphSet) (n : String) (g : Glyph)
+    (h : (addRequired cfg i m).get? n = some g) :
+    m.get? n = some g ∨ (n = ".notdef" ∧ m.get? ".notdef" = none ∧ (cfg.notdefFallback = true → g = emptyGlyph ".notdef")) := by
+  have hdef : addRequired cfg i m = (if (m.get? ".notdef").isSome then m
+      else if cfg.notdefFallback then m ++ [(".notdef", emptyGlyph ".notdef")]
+      else match cfg.stubs.getD i none with
+        | some g => m ++ [(".notdef", g)]
+        | none => m) := by
+    unfold addRequired
+    rw [hi]
+    simp only [Bool.not_true, Bool.and_false, Bool.false_eq_true, if_false]
+    rfl
+  rw [hdef] at h
+  have happ : ∀ x : Glyph, GlyphSet.get? (m ++ [(".notdef", x)]) n = some g →
+      m.get? n = some g ∨ (n = ".notdef" ∧ m.get? n = none ∧ g = x) := by
+    intro x hx
+    simp only [GlyphSet.get?] at hx ⊢
+    rw [alookup_append] at hx
+    cases hm : alookup n m with
+    | some v => rw [hm] at hx; exact Or.inl hx
+    | none =>
+      rw [hm] at hx
+      simp only [alookup] at hx
+      by_cases hk : ((".notdef" : String) == n) = true
+      · rw [if_pos hk] at hx
+        exact Or.inr ⟨(by simpa using hk : ".notdef" = n).symm, rfl, (Option.some.inj hx).symm⟩
+      · rw [if_neg hk] at hx; cases hx
+  split at h
+  · exact Or.inl h
+  · split at h
+    · rcases happ _ h with h | ⟨h1, h2, h3⟩
+      · exact Or.inl h
+      · subst h1; exact Or.inr ⟨rfl, h2, fun _ => h3⟩
+    · rename_i hf
+      split at h
+      · rcases happ _ h with h | ⟨h1, h2, _⟩
+        · exact Or.inl h
+        · subst h1; exact Or.inr ⟨rfl, h2, fun hf' => absurd hf' hf⟩
+      · exact Or.inl h
+
+/-- **C09_twoByTwo** (TrueType pipeline without Instantiator, all inputs).  If the source masters agree on every glyph's
+    component list (`compCompatible`), then in the model's output of `compileFamily` — skipExportGlyphs, uniform custom
+    filters, `check_for_nonmatching_components` + joint decomposition, cu2qu / reversal, flattening, custom post filters,
+    `makeMissingRequiredGlyphs` — every glyph that is still a composite has THE SAME 2×2 part on each component in all
+    masters that have it: `holdsTwoByTwo` holds.  Mechanism proved: a name outside `needs_decomposition` has matching 2×2
+    parts and is nowhere mixed (`notNeeded_agree`); a name inside is decomposed in every master (`needLoop`);
+    flattening and the custom decomposition respect agreement on (simple-or-mixed?, names, 2×2) (`flattenOp_relF`).
+    Hypotheses (decidable, reported by the driver): glyph sets are dicts keyed by name (`wfSrc`); no source glyph looks like an
+    empty stand-in (`noSentinels`: `compCompatible` ignores those); custom filters are uniform per phase (`uniformCustom`,
+    else ufo2ft filters each UFO alone "and hopes for the best"); the set-iteration orders given to the model mention
+    every glyph (`ordersCover`); cu2qu keeps keys / names / components / emptiness (`cu2quOk`); `.notdef` is added to all
+    masters or to none, or as the empty fallback (`notdefJoint`; the stub finding otherwise). -/
+theorem C09_twoByTwo (cfg : Cfg) (src : Masters) (o : PreOut) (httf : cfg.ttf = true) (hi : cfg.inst = none)
+    (hu : uniformCustom cfg = true) (hwf : wfSrc src = true) (hns : noSentinels src = true)
+    (hord : ordersCover cfg src = true) (hcu : cu2quOk cfg o.beforeCu2qu = true) (hnd : notdefJoint cfg src = true)
+    (h : compileFamily cfg src = .ok o) : holdsTwoByTwo src o.final = true := by
+  unfold holdsTwoByTwo
+  cases hcc : compCompatible src with
+  | false => rfl
+  | true =>
+    simp only [Bool.not_true, Bool.false_or]
+    have hU := uniformCustom_prop cfg hu
+    unfold compileFamily at h
+    rw [if_pos httf] at h
+    cases hp : preprocessTTF cfg src with
+    | error e => rw [hp] at h; cases h
+    | ok o' =>
+      rw [hp] at h
+      simp only [Except.ok.injEq] at h
+      have hb : o.beforeCu2qu = o'.beforeCu2qu := by rw [← h]
+      have hfin : o.final = (List.range o'.final.length).zipWith (fun i m => addRequired cfg i m) o'.final := by rw [← h]
+      let L1 := (namesOf src).map (List.filter (fun n => !cfg.skip.contains n))
+      have hsub : ∀ L ∈ L1, ∀ n ∈ L, n ∈ allNames src := by
+        intro L hL n hn
+        obtain ⟨L0, hL0, rfl⟩ := List.mem_map.mp hL
+        obtain ⟨m, hm, rfl⟩ := List.mem_map.mp hL0
+        exact (mem_allNames src n).mpr ⟨m, hm, (List.mem_filter.mp hn).1⟩
+      have hk0 := src_kOk src hwf
+      have hinit : PA src (namesOf src) ⟨src, some src, [], cfg.orders⟩ := by
+        refine ⟨⟨hk0, hk0, fun e he => by cases he⟩, src_alikeN src hcc hns, ?_, rfl⟩
+        intro ord hord' n hn
+        simp only [ordersCover, List.all_eq_true] at hord
+        simpa using hord ord hord' n hn
+      obtain ⟨s, hs, hsm⟩ := preprocessTTF_chain (PA src (namesOf src)) (PA src L1) (PA src L1) (PC L1) (PC L1) (PC L1) (PC L1)
+        cfg src o' hinit
+        (fun s s' hs hh => by
+          rw [hi] at hh
+          exact ⟨skipI_Q kOk_GInv none _ s s' hs.1 hh,
+            skipI_alike (abG absN) cfg.skip (decomposeOp_rel absN false (some cfg.skip)) s s' hs.2.1 hh,
+            skipI_meta _ _ cfg.skip s s' hs.2.2 hh⟩)
+        (fun s s' hs hh => ⟨runCustom_Q kOk_GInv cfg true s s' hs.1 hh,
+            runCustom_alike (abG absN) (decomposeOp_rel absN true none) cfg hi hU true s s' hs.2.1 hh,
+            runCustom_meta _ _ cfg hi hU true s s' hs.2.2 hh⟩)
+        (fun s s' hs hh => by
+          rw [hi] at hh
+          have := decomposeNeeded_two s s' hs.1 hs.2.1 (by
+            intro ord hord' n hn
+            obtain ⟨m, hm, hnm⟩ := (mem_allNames s.ms n).mp hn
+            have : m.names ∈ L1 := by rw [← hs.2.2.2]; exact List.mem_map.mpr ⟨m, hm, rfl⟩
+            exact hs.2.2.1 ord hord' n (hsub _ this n hnm)) hh
+          exact ⟨this.1, by rw [this.2]; exact hs.2.2.2⟩)
+        (fun s s' b hs hh hbb => curvesStep_PC cfg L1 s s' b hs (by rw [← hbb, ← hb]; exact hcu) hh)
+        (fun s s' hs hh => by
+          rw [hi] at hh
+          exact ⟨flattenI_alike (abF absL) (flattenOp_relF absL) s s' hs.1 hh,
+            (runIU_meta [] L1 _ _ flattenIStep_none_meta s s' ⟨(fun _ _ _ hn => by cases hn), hs.2⟩ hh).2⟩)
+        (fun s hs => hs)
+        (fun s s' hs hh => ⟨runCustom_alike (abF absL) (decomposeOp_relF absL) cfg hi hU false s s' hs.1 hh,
+            (runCustom_meta [] L1 cfg hi hU false s s' ⟨(fun _ _ _ hn => by cases hn), hs.2⟩ hh).2⟩)
+        hp
+      obtain ⟨hAl, hNames⟩ := hs
+      rw [hsm] at hAl hNames
+      -- every real glyph of an output master is a glyph of the pre-processor's output
+      have hback : ∀ mo ∈ o.final, ∃ m ∈ o'.final, ∀ n g, mo.get? n = some g → isSentinel g = false → m.get? n = some g := by
+        intro mo hmo
+        rw [hfin] at hmo
+        obtain ⟨idx, hidx⟩ := List.mem_iff_getElem?.mp hmo
+        rw [List.getElem?_zipWith] at hidx
+        cases hr : (List.range o'.final.length)[idx]? with
+        | none => rw [hr] at hidx; simp at hidx
+        | some i =>
+          cases hm : o'.final[idx]? with
+          | none => rw [hr, hm] at hidx; simp at hidx
+          | some m =>
+            rw [hr, hm] at hidx
+            simp only [Option.some.injEq] at hidx
+            have hmm : m ∈ o'.final := List.mem_of_getElem? hm
+            refine ⟨m, hmm, ?_⟩
+            intro n g hg hsent
+            rw [← hidx] at hg
+            rcases addRequired_none_get? cfg hi i m n g hg with h1 | ⟨h1, h2, h3⟩
+            · exact h1
+            · exfalso
+              simp only [notdefJoint, Bool.or_eq_true, Bool.and_eq_true, Bool.not_eq_true', List.all_eq_true] at hnd
+              rcases hnd with hf | ⟨hsk, hall⟩
+              · rw [h3 hf, isSentinel_emptyGlyph] at hsent; cases hsent
+              · have : m.names ∈ L1 := by rw [← hNames]; exact List.mem_map.mpr ⟨m, hmm, rfl⟩
+                obtain ⟨L0, hL0, hL⟩ := List.mem_map.mp this
+                obtain ⟨m0, hm0, rfl⟩ := List.mem_map.mp hL0
+                have hin0 : ".notdef" ∈ m0.names := (get?_isSome_iff_names m0 ".notdef").mp (hall m0 hm0)
+                have hin : ".notdef" ∈ m.names := by
+                  rw [← hL]; exact List.mem_filter.mpr ⟨hin0, by simpa using hsk⟩
+                have := (get?_isSome_iff_names m ".notdef").mpr hin
+                rw [h2] at this; cases this
+      rw [List.all_eq_true]
+      intro n _
+      apply allEq_of_pairwise
+      intro x hx y hy
+      simp only [twoByTwosOf, List.mem_map, List.mem_filter, glyphsNamed, List.mem_filterMap] at hx hy
+      obtain ⟨g1, ⟨⟨mo1, hmo1, hg1⟩, hs1⟩, rfl⟩ := hx
+      obtain ⟨g2, ⟨⟨mo2, hmo2, hg2⟩, hs2⟩, rfl⟩ := hy
+      obtain ⟨m1, hm1, hb1⟩ := hback mo1 hmo1
+      obtain ⟨m2, hm2, hb2⟩ := hback mo2 hmo2
+      have e := hAl m1 hm1 m2 hm2 n g1 g2 (hb1 n g1 hg1 (by simpa using hs1)) (hb2 n g2 hg2 (by simpa using hs2))
+      simp only [abF, Prod.mk.injEq] at e
+      have := congrArg (List.map (·.2)) e.2
+      simpa [abK, absL, List.map_map, Function.comp_def] using this
 
 end Ufo2ft.C09
